@@ -3,7 +3,7 @@ clauses a-h)."""
 import ast
 from typing import List, Optional
 
-from ..core import Index, FuncDef, ClassDef, External, AnalysisError, unparse, walk_own, dotted_name, parent
+from ..core import Index, FuncDef, ClassDef, External, AnalysisError, unparse, walk_own, dotted_name, parent, ancestors
 from ..fold import Folder, Record, EnumMember, Ref, is_unknown, single_return_expr
 from ..absint import Interp, Hooks, State, K, Sym, Obj, Exc, NONE, ListVal, FuncVal, BoundMethod
 from ..report import Check
@@ -47,6 +47,7 @@ def check(c: Check):
     clause_h(c)
     clause_j(c)
     clause_k(c)
+    clause_m(c)
     # l: depth limits - 0 is a limit, not "no limit"
     check_zero_is_a_value(c, 'C15-l', ['exactly_lib.impls.types.files_matcher.models',
                                        'exactly_lib.impls.types.file_matcher.impl.dir_contents'], 4,
@@ -806,3 +807,40 @@ def clause_k(c: Check):
                      '%s is called with %s: the default (dereference links, fail on an existing destination) is what '
                      'dir-contents-of documents' % (dotted, extra), '%s:%d' % (osm.relpath, node.lineno))
     c.floor('C15-k', 'copy primitives of the OS services', n_cp, 2)
+
+
+# ---------------------------------------------------------------- m
+def clause_m(c: Check):
+    """the recursive listing enters a directory because of what that directory IS (a directory - links followed -, not
+    pruned, within the depth limits) and never because of what the walk has seen before: the push onto the work list
+    is not guarded by a membership test in a collection built during the walk.  A tree in which the same directory is
+    reachable by two routes (a link to a sibling, two links to one directory) lists its contents under both; skipping
+    "already seen" directories drops the second listing from `num-files`, `matches`, quantifiers and selections."""
+    ix = c.ix
+    g = ix.func('exactly_lib.impls.types.files_matcher.models:_FilesGeneratorForRecursive.generate')
+    work = None
+    for n in walk_own(g.node):
+        if isinstance(n, ast.While) and isinstance(n.test, ast.Name):
+            if any(isinstance(x, ast.Call) and isinstance(x.func, ast.Attribute) and x.func.attr == 'pop'
+                   and isinstance(x.func.value, ast.Name) and x.func.value.id == n.test.id for x in ast.walk(n)):
+                work = n.test.id
+    c.require(work is not None, 'C15-m: the work list of the recursive listing is not found')
+    pushes = [n for n in ast.walk(g.node) if isinstance(n, ast.Call) and isinstance(n.func, ast.Attribute)
+              and n.func.attr in ('append', 'extend', 'insert') and isinstance(n.func.value, ast.Name)
+              and n.func.value.id == work]
+    c.floor('C15-m', 'places where the recursive listing schedules a directory', len(pushes), 1)
+    for push in pushes:
+        hist = []
+        for a in ancestors(push):
+            if a is g.node:
+                break
+            if isinstance(a, (ast.If, ast.IfExp, ast.While)):
+                for x in ast.walk(a.test):
+                    if isinstance(x, ast.Compare) and any(isinstance(o, (ast.In, ast.NotIn)) for o in x.ops):
+                        for comp in x.comparators:
+                            if isinstance(comp, (ast.Name, ast.Attribute)):
+                                hist.append(unparse(x))
+        c.expect(not hist, 'C15-m', 'enters-every-directory/%s' % g.key,
+                 'a directory is scheduled for listing only if %s: whether it is listed depends on what the walk has '
+                 'visited before, so a directory reachable by a second route is left out' % ' and '.join(hist),
+                 '%s:%d' % (g.module.relpath, push.lineno))
